@@ -22,6 +22,22 @@ func (r res) ClientIP(fox.Context) (*net.IPAddr, error) {
 	return &net.IPAddr{IP: net.ParseIP(r.id)}, nil
 }
 
+// sliceRes is a resolver of a struct type that cannot be compared.
+type sliceRes struct{ ids []string }
+
+func (r sliceRes) ClientIP(fox.Context) (*net.IPAddr, error) {
+	return &net.IPAddr{IP: net.ParseIP(r.ids[0])}, nil
+}
+
+// oddResolver: arguments 3 and 4 are functions, 5 and 6 structs holding a slice; each answers n.n.n.n.
+func oddResolver(n int) fox.ClientIPResolver {
+	id := fmt.Sprintf("%d.%d.%d.%d", n, n, n, n)
+	if n <= 4 {
+		return fox.ClientIPResolverFunc(func(fox.Context) (*net.IPAddr, error) { return &net.IPAddr{IP: net.ParseIP(id)}, nil })
+	}
+	return sliceRes{[]string{id}}
+}
+
 // trace records which middleware and handler ran for the request being served.
 var trace []string
 
@@ -73,11 +89,13 @@ var annotKeys = []struct {
 var ptrKey = new(int)
 
 func globalOpts() []opt {
-	return []opt{{"redirect", 1}, {"redirect", 0}, {"ignore", 1}, {"ignore", 0}, {"resolver", 1}, {"resolver", 0}, {"middleware", 1}, {"middleware", 0}, {"mwfor", 1}, {"mwfor", 2}, {"mwfor", 3}}
+	return []opt{{"redirect", 1}, {"redirect", 0}, {"ignore", 1}, {"ignore", 0}, {"resolver", 1}, {"resolver", 0}, {"middleware", 1}, {"middleware", 0}, {"mwfor", 1}, {"mwfor", 2}, {"mwfor", 3},
+		// resolvers whose types cannot be compared (a function, a struct holding a slice)
+		{"resolver", 3}, {"resolver", 5}}
 }
 
 func routeOpts() []opt {
-	out := []opt{{"redirect", 1}, {"redirect", 0}, {"ignore", 1}, {"ignore", 0}, {"resolver", 2}, {"resolver", 0}, {"middleware", 1}, {"middleware", 0}}
+	out := []opt{{"redirect", 1}, {"redirect", 0}, {"ignore", 1}, {"ignore", 0}, {"resolver", 2}, {"resolver", 0}, {"middleware", 1}, {"middleware", 0}, {"resolver", 4}, {"resolver", 6}}
 	for i := range annotKeys {
 		out = append(out, opt{"annot", i})
 	}
@@ -108,6 +126,9 @@ func toGlobal(o opt, seq int) fox.GlobalOption {
 		if o.Arg == 0 {
 			return fox.WithClientIPResolver(nil)
 		}
+		if o.Arg >= 3 {
+			return fox.WithClientIPResolver(oddResolver(o.Arg))
+		}
 		return fox.WithClientIPResolver(res{"1.1.1.1"})
 	case "middleware":
 		if o.Arg == 0 {
@@ -127,6 +148,9 @@ func toRoute(o opt, seq int) fox.RouteOption {
 	case "resolver":
 		if o.Arg == 0 {
 			return fox.WithClientIPResolver(nil)
+		}
+		if o.Arg >= 3 {
+			return fox.WithClientIPResolver(oddResolver(o.Arg))
 		}
 		return fox.WithClientIPResolver(res{"2.2.2.2"})
 	case "middleware":
@@ -169,6 +193,8 @@ func (m *model) apply(o opt, seq int, global bool) {
 			m.resolver = "1.1.1.1"
 		case o.Arg == 2:
 			m.resolver = "2.2.2.2"
+		case o.Arg >= 3:
+			m.resolver = fmt.Sprintf("%d.%d.%d.%d", o.Arg, o.Arg, o.Arg, o.Arg)
 		case !global:
 			m.resolver = "" // a nil per-route resolver means none
 		}
